@@ -58,9 +58,14 @@ class DoctestConfig(dict):
 
     def _populate_from_cli(self, ns):
         from xdoctest.directive import parse_directive_optstr
+        from xdoctest.directive import RuntimeState
         directive_optstr = ns['options']
         default_runtime_state = {}
         if directive_optstr:
+            # Default options behave like a leading block directive, so let
+            # the runtime state interpret them (REQUIRES is a set of unmet
+            # conditions, not a flag).
+            runstate = RuntimeState()
             for optpart in directive_optstr.split(','):
                 directive = parse_directive_optstr(optpart)
                 if directive is None:
@@ -68,7 +73,8 @@ class DoctestConfig(dict):
                         'Failed to parse directive given in the xdoctest "options"'
                         'directive_optstr={!r}'.format(directive_optstr)
                     )
-                default_runtime_state[directive.name] = directive.positive
+                runstate.update([directive])
+                default_runtime_state[directive.name] = runstate[directive.name]
         _examp_conf = {
             'default_runtime_state': default_runtime_state,
             'offset_linenos': ns['offset_linenos'],
